@@ -798,7 +798,7 @@ func chunkSegment(init *mp4.InitSegment, seg *mp4.MediaSegment, segMeta segMeta,
 		}
 	}
 	if thisChunkDur > 0 {
-		ch.dur = uint64(chunkDur)
+		ch.dur = uint64(thisChunkDur)
 		chunks = append(chunks, ch)
 	}
 
